@@ -38,6 +38,7 @@ RULE = (
     ' Round 6: `cancelled_read k` (reader cancelled after k loop iterations: what it did not return stays owed); BOM/NUL/backslash payloads enumerated.'
     ' Round 7: prefix levels with regex/format/shell metacharacters; constructor failure for a legal prefix is a violation.'
     ' Round 8: `write_while_reading`.'
+    ' Round 9: `reconnect_retained` with staggered subscription acknowledgements; prefixes with empty levels.'
 )
 ASSUMPTIONS = [
     "aiomysensors.transport.mqtt.AsyncioClient is replaced by a fake (the name the repository's tests patch); paho and the network are trusted",
